@@ -49,6 +49,14 @@ func audioFromASC(asc *aac.AudioSpecificConfig, cfg []byte) audioGot {
 	return g
 }
 
+func decodeASC(cfg []byte) (audioGot, error) {
+	var asc aac.AudioSpecificConfig
+	if err := asc.Decode(cfg); err != nil {
+		return audioGot{Err: err.Error()}, err
+	}
+	return audioFromASC(&asc, nil), nil
+}
+
 func (g audioGot) diff(want aacasc.Audio) string {
 	if g.Err != "" {
 		return firstLine(g.Err)
